@@ -187,8 +187,10 @@ def run_driver(cfg, ops, chdir, workdir, asan=False, env_extra=None, timeout=120
     try:
         p = subprocess.run([exe, sp, lp], env=env, stdout=subprocess.PIPE, stderr=subprocess.PIPE, timeout=timeout)
         rc, err = p.returncode, p.stderr.decode(errors="replace")
-    except subprocess.TimeoutExpired as e:
-        rc, err = -999, "timeout"
+    except subprocess.TimeoutExpired:
+        # a time budget that runs out is inconclusive, never a verdict
+        from .campaign import HarnessError
+        raise HarnessError("drf_driver did not finish within %d s (machine overloaded?)" % timeout)
     return rc, parse_log(lp), err
 
 
